@@ -59,6 +59,15 @@ def kernel_cases(ctx):
                     cases.append({"nq": 2, "nb": 0, "specs": [["ctrl", 0, ["bsr", 1, ax, a, 0.0]]], "pass": ["decompose", d]})
                 else:
                     cases.append({"nq": 1, "nb": 0, "specs": [["bsr", 0, ax, a, 0.0]], "pass": ["decompose", d]})
+    #  - axes tilted by 1e-6 .. 5e-4 off a coordinate axis, every decomposer (shortcuts taken "near" an axis)
+    for d in DEC_NAMES:
+        for tilt in (1e-6, 1e-5, 1e-4, 3e-4):
+            for ax in ([tilt, 0.0, 1.0], [0.0, -tilt, 1.0], [tilt, tilt, -1.0], [1.0, tilt, 0.0], [0.0, 1.0, -tilt], [-1.0, 0.0, tilt]):
+                for a in (PI / 2, PI, -PI / 4):
+                    if d == "cnot":
+                        cases.append({"nq": 2, "nb": 0, "specs": [["ctrl", 0, ["bsr", 1, ax, a, 0.0]]], "pass": ["decompose", d]})
+                    else:
+                        cases.append({"nq": 1, "nb": 0, "specs": [["bsr", 0, ax, a, 0.0]], "pass": ["decompose", d]})
     for d, ax, a in full:
         ph = rng.choice([0.0, PI / 2, rng.uniform(-PI, PI)])
         if d == "cnot":
